@@ -98,7 +98,11 @@ class DiscreteTimeInterpreter(TimeInterpreter):
 
     def gap(self, earlier, later):
         # the difference of two time-stamps as they are written (0.52 - 0.41 is 0.11, not 0.11000000000000004)
-        return (Fraction(str(later)) - Fraction(str(earlier))) * Fraction(str(self.normalize))
+        try:
+            return (Fraction(str(later)) - Fraction(str(earlier))) * Fraction(str(self.normalize))
+        except ValueError:
+            # a time-stamp type whose text is not a number (a bool, ...): the plain difference
+            return (later - earlier) * self.normalize
 
     def update_sampling_violation_counter(self, duration):
         # time-stamps are expressed in the default unit, the period in its own unit; the period, the tolerance
